@@ -1,0 +1,62 @@
+//go:build verif
+
+package sync2
+
+import "sync"
+
+// VerifHooks lets a verification harness take control of the interleaving of
+// goroutines inside this package: every hook is called by the goroutine that is
+// about to perform the named atomic action (or has just released a mutex), and
+// may park it. Only compiled with the "verif" build tag; nil hooks do nothing.
+var VerifHooks struct {
+	// Yield is called before an atomic load/store/CAS; point names the call site.
+	Yield func(point string)
+	// Lock is called before a blocking acquisition of mu (a *sync.Mutex or
+	// *sync.RWMutex); kind is "lock" or "rlock". It returns when the harness has
+	// decided that the acquisition will not block.
+	Lock func(mu any, kind string)
+	// Unlocked is called when mu is released; kind is "unlock" or "runlock".
+	Unlocked func(mu any, kind string)
+}
+
+func verifYield(point string) {
+	if h := VerifHooks.Yield; h != nil {
+		h(point)
+	}
+}
+
+func verifMuLock(mu *sync.Mutex) {
+	if h := VerifHooks.Lock; h != nil {
+		h(mu, "lock")
+	}
+}
+
+func verifMuUnlocked(mu *sync.Mutex) {
+	if h := VerifHooks.Unlocked; h != nil {
+		h(mu, "unlock")
+	}
+}
+
+func verifRWLock(mu *sync.RWMutex) {
+	if h := VerifHooks.Lock; h != nil {
+		h(mu, "lock")
+	}
+}
+
+func verifRWUnlocked(mu *sync.RWMutex) {
+	if h := VerifHooks.Unlocked; h != nil {
+		h(mu, "unlock")
+	}
+}
+
+func verifRWRLock(mu *sync.RWMutex) {
+	if h := VerifHooks.Lock; h != nil {
+		h(mu, "rlock")
+	}
+}
+
+func verifRWRUnlocked(mu *sync.RWMutex) {
+	if h := VerifHooks.Unlocked; h != nil {
+		h(mu, "runlock")
+	}
+}
